@@ -25,7 +25,7 @@ REQUIRED = [
     ang_hz_inverse hz_ang_inverse nyquist_is_pi""".split()
 ]
 RULE = (
-    "windows: every width 0..48 plus widths drawn from [49,4096] (thorough: every width 0..4096) x the four NumPy-based "
+    "windows: every width 0..160 plus widths drawn from [161,4096] (thorough: every width 0..4096) x the four NumPy-based "
     "classes; GammaWindow: order in 1..20 (and 0 for the error path), peak in (0,1), widths hugging 0,1,2 and up to 4096; "
     "circshift_fourier: segment length 0..40, start 0..24, dft_size omitted / None / equal / larger / smaller than "
     "start+len / 0, integer shifts that are 0, negative, larger than D, and huge, copy True/False, dtype complex128 / "
@@ -112,7 +112,9 @@ def oracle_np_window(kind, width, w):
         return [("window_nonneg", "finite", "non-finite", "window samples are finite")]
     shape = NP_SHAPE[kind](width)
     big = float(np.max(np.abs(w)))
-    ulp = float(np.spacing(big)) if big > 0 else 0.0
+    # one ulp of the largest *term* of the shape (0.42, 0.5, 0.08 ... are O(1)) after division by the Theta(width) area:
+    # np.blackman's end samples are 0.42 - 0.5 + 0.08 = -1.4e-17 in floats, which is round-off, not a violation
+    ulp = float(np.spacing(1.0)) * max(big, 1.0 / max(1, width - 1))
     mn = float(w.min())
     if mn < -ulp:
         bad.append(("window_nonneg", ">= -%g" % ulp, mn, "samples are non-negative (up to one ulp of the largest sample)"))
@@ -245,10 +247,10 @@ def gen_widths(ctx):
     if ctx.tier == "thorough":
         return list(range(0, 4097))
     r = ctx.rng
-    ws = set(range(0, 49)) | {63, 64, 65, 255, 256, 257, 400, 1023, 1024, 4095, 4096}
-    n = ctx.scale(36, 400)
-    while len(ws) < 60 + n:
-        ws.add(int(round(10 ** r.uniform(math.log10(49), math.log10(4096)))))
+    ws = set(range(0, 161)) | {255, 256, 257, 400, 1023, 1024, 2048, 4095, 4096}
+    target = len(ws) + ctx.scale(110, 400)
+    while len(ws) < target:
+        ws.add(int(round(10 ** r.uniform(math.log10(161), math.log10(4096)))))
     return sorted(ws)
 
 
@@ -265,7 +267,7 @@ def pick_sel(r, width, full_upto):
 def gen_gamma_params(ctx):
     r = ctx.rng
     out = []
-    n = ctx.scale(120, 3000)
+    n = ctx.scale(700, 6000)
     base_w = [0, 1, 2, 3, 4, 5, 8, 16, 25, 100, 400, 1000, 4096]
     for order in (1, 2, 3, 4, 6):
         for peak in (0.75, 0.5, 0.9):
@@ -283,7 +285,7 @@ def gen_gamma_params(ctx):
 
 def gen_circshift(ctx):
     r = ctx.rng
-    n = ctx.scale(700, 20000)
+    n = ctx.scale(3000, 40000)
     cases = []
 
     def rnd_c():
@@ -326,7 +328,7 @@ def gen_circshift(ctx):
 
 def gen_probs(ctx):
     r = ctx.rng
-    n = ctx.scale(1500, 60000)
+    n = ctx.scale(6000, 100000)
     ps = [0.5, 0.25, 0.75, 1e-20, 1.0000001e-20, 0.99e-20, 1e-21, 1e-25, 1e-300, 5e-324, 1 - 2 ** -53, 1 - 2 ** -52,
           0.5 - 2 ** -54, 0.5 + 2 ** -53, 0.4999999, 0.5000001, 0.1, 0.9, 0.01, 0.99, 1e-10, 1 - 1e-10]
     while len(ps) < n:
@@ -454,7 +456,7 @@ def run(ctx, driver):
                           "gauss_quant is strictly increasing between the cut-offs", tags=dict(clause="gq_mono", fn="gauss_quant"))
 
     # ---- E. hertz <-> angular --------------------------------------------------------------
-    for _ in range(ctx.scale(300, 5000)):
+    for _ in range(ctx.scale(600, 10000)):
         f = r.choice([0.0, 440.0, r.uniform(-1e5, 1e5), 10 ** r.uniform(-6, 6)])
         rate = r.choice([8000.0, 16000.0, 44100.0, 1.0, 10 ** r.uniform(-3, 6), -16000.0])
         a = float(util.hertz_to_angular(f, rate))
@@ -624,9 +626,15 @@ def replay(rp):
             o = drv.run(["gq %s %s %s" % (common.fbits(c["p"]), common.fbits(c.get("mu", 0.0)), common.fbits(c.get("std", 1.0)))])[0]
             print("model:", common.bits_to_float(o))
         elif c.get("fn") == "circshift_fourier":
-            o = drv.run(["cs %d %d %s %d %d -" % (c["shift"], c["start"], "none" if c["dft_mode"] != "given" else c["dft"],
-                                                   1 if c["copy"] else 0, 1 if c["dtype"] == "c128" else 0)])[0]
-            print("model (plan for an empty segment at this start/size): " + o[:200])
+            fl = ",".join(common.fbits(v) for ab in c["filt"] for v in ab) or "-"
+            o = drv.run(["cs %d %d %s %d %d %s" % (c["shift"], c["start"], "none" if c["dft_mode"] != "given" else c["dft"],
+                                                    1 if c["copy"] else 0, 1 if c["dtype"] == "c128" else 0, fl)])[0]
+            if o.startswith("err:"):
+                print("model:", o)
+            else:
+                D, s_, same, ks, rs, m_out, _ = o.split(" ")
+                print("model: D=%s shift%%D=%s in_place=%s bins=%s phase residues=%s" % (D, s_, same, ks, rs))
+                print("model out:", np.array2string(unpairs(m_out), precision=6))
     except Exception as e:  # noqa
         print("model: driver unavailable (%s)" % e)
     return 1 if bad else 0
